@@ -368,7 +368,74 @@ func c05Corpus() []c05Run {
 	}
 }
 
+// books aimed at the pro-rata retry of DistributeOrderAmountToOrders: several orders of one side on
+// one tick and in one batch whose shares are worth about one quote unit, the other side slightly
+// smaller than their total
+func c05RetryRun(r *rng) c05Run {
+	prec := 3
+	price := sdk.MustNewDecFromStr([]string{"0.01", "0.02", "0.05", "0.1", "0.0021", "0.3", "0.5"}[r.intn(7)])
+	unit := sdk.OneDec().Quo(price).Ceil().TruncateInt() // base amount worth one quote unit
+	manySell := r.chance(70)
+	n := 2 + r.intn(4)
+	var specs []c05Spec
+	total := sdkmath.ZeroInt()
+	id := uint64(1)
+	for i := 0; i < n; i++ {
+		amt := unit.MulRaw(int64(1 + r.intn(3))).AddRaw(int64(r.intn(5)) - 2)
+		if r.chance(20) {
+			amt = sdkmath.NewInt(int64(1 + r.intn(5)))
+		}
+		if !amt.IsPositive() {
+			amt = sdkmath.OneInt()
+		}
+		total = total.Add(amt)
+		dir := amm.Sell
+		if !manySell {
+			dir = amm.Buy
+		}
+		specs = append(specs, c05Spec{buy: !manySell, price: price, amt: amt, offer: amm.OfferCoinAmount(dir, price, amt), batch: 1, id: id})
+		id++
+	}
+	m := 1 + r.intn(2)
+	rest := total.SubRaw(int64(1 + r.intn(4)))
+	if r.chance(20) {
+		rest = total.MulRaw(int64(1 + r.intn(9))).QuoRaw(10)
+	}
+	for i := 0; i < m && rest.IsPositive(); i++ {
+		amt := rest
+		if i+1 < m {
+			amt = rest.QuoRaw(2)
+			if !amt.IsPositive() {
+				amt = rest
+			}
+		}
+		rest = rest.Sub(amt)
+		dir := amm.Buy
+		if !manySell {
+			dir = amm.Sell
+		}
+		op := price
+		if r.chance(30) { // a more aggressive limit on the other side
+			if manySell {
+				op = amm.UpTick(price, prec)
+			} else {
+				op = amm.DownTick(price, prec)
+			}
+		}
+		specs = append(specs, c05Spec{buy: manySell, price: op, amt: amt, offer: amm.OfferCoinAmount(dir, op, amt), batch: uint64(1 + r.intn(2)), id: id})
+		id++
+	}
+	kind := "match"
+	if r.chance(30) {
+		kind = "single"
+	}
+	return c05Run{kind: kind, specs: specs, price: price, prec: prec}
+}
+
 func c05RandRun(r *rng) c05Run {
+	if r.chance(12) {
+		return c05RetryRun(r)
+	}
 	prec := int(r.pickI(1, 2, 3, 3, 4))
 	base := sdk.MustNewDecFromStr(c05BasePrices[r.intn(len(c05BasePrices))])
 	if r.chance(35) { // the region where quote amounts round to zero
